@@ -182,6 +182,9 @@ def dcmstack_round(rep, r, tier, tmp):
             seq[0]['embed'] = True
         seq[-1].pop('excl', None); seq[-1].pop('incl', None); seq[-1].pop('extract_private', None)
         seq[-1]['embed'] = True
+        if ci % 3 == 2 and len(seq) > 1:
+            # the meta data dumped to JSON but not embedded: the image is written without the extension
+            seq[0]['dump'], seq[0]['embed'] = True, False
         for ii, opts in enumerate(seq):
             rep.evaluations += 1
             rep.count('cli/dcmstack')
@@ -403,6 +406,21 @@ def nitool_round(rep, r, tier, tmp):
                         rep.failure('nitool merge writes something else than NiftiWrapper.from_sequence returns', dict(C, tag='nitool:merge', dim=dim))
                 except Exception as e:
                     rep.failure('nitool merge: %r' % e, dict(C, tag='nitool:merge', dim=dim))
+                # --clear-slices: the per-slice meta data of the *result* is dropped (also what the merge itself made per slice)
+                outc = os.path.join(sd, 'merged_clear.nii.gz')
+                rc, out = nitool(['merge', outc, '-d', str(dim), '-c'] + pieces)
+                try:
+                    with contextlib.redirect_stdout(io.StringIO()):
+                        mc = NiftiWrapper.from_filename(outc)
+                        ac = NiftiWrapper.from_sequence(list(w.split(dim)), dim)
+                    ac.meta_ext.clear_slice_meta()
+                    rep.evaluations += 1
+                    rep.count('cli/nitool-merge-clear')
+                    if mc.meta_ext.to_json() != ac.meta_ext.to_json():
+                        rep.failure('nitool merge -c writes other meta data than from_sequence followed by clear_slice_meta gives',
+                                    dict(C, tag='nitool:merge-clear', dim=dim))
+                except Exception as e:
+                    rep.failure('nitool merge -c: %r' % e, dict(C, tag='nitool:merge-clear', dim=dim))
         if len(case['shape']) >= 4 and case['shape'][-1] >= 2:
             # the inputs are merged in command-line order, whatever their names: write the pieces of a split along the
             # last axis under names whose sorted order is not the order they are passed in
